@@ -11,12 +11,14 @@ import (
 	"verif/harness/internal/core"
 )
 
-// Caddyfile glue:  cf <srvTP> <strict> <cih> <rpTP>
+// Caddyfile glue:  cf <srvTP> <strict> <cih> <rpTP> <target>
 //
 //	srvTP  . | line|line…    `trusted_proxies static <args>` lines of the global `servers` block
 //	strict 0|1|2|x           number of `trusted_proxies_strict` lines; x = one line with an argument
 //	cih    . | line|line…    `client_ip_headers <args>` lines
 //	rpTP   . | line|line…    `trusted_proxies <args>` lines inside the site's reverse_proxy block
+//	target g | t             g: global `servers { … }`, one site :80;  t: `servers :8443 { … }` with a second site
+//	                         http://:8443 — the options must reach that server and ONLY that server
 //	line = _ (no arguments) | hex,hex,…   (tokens over [A-Za-z0-9_.:/-])
 //
 // The real Caddyfile adapter turns the file into JSON; the answer is what reached the server and
@@ -128,9 +130,10 @@ func strs(v any) []string {
 }
 
 func (p *prop) runCF(f []string) core.Outcome {
-	if len(f) != 5 {
+	if len(f) != 6 || (f[5] != "g" && f[5] != "t") {
 		return core.Outcome{Impl: "bad-op"}
 	}
+	targeted := f[5] == "t"
 	srvTP, ok1 := parseLines(f[1])
 	cih, ok2 := parseLines(f[3])
 	rpTP, ok3 := parseLines(f[4])
@@ -157,7 +160,14 @@ func (p *prop) runCF(f []string) core.Outcome {
 		opts = append(opts, "\t\tclient_ip_headers "+strings.Join(l, " "))
 	}
 	if len(opts) > 0 {
-		sb.WriteString("{\n\tservers {\n" + strings.Join(opts, "\n") + "\n\t}\n}\n")
+		if targeted {
+			sb.WriteString("{\n\tservers :8443 {\n" + strings.Join(opts, "\n") + "\n\t}\n}\n")
+		} else {
+			sb.WriteString("{\n\tservers {\n" + strings.Join(opts, "\n") + "\n\t}\n}\n")
+		}
+	}
+	if targeted {
+		sb.WriteString("http://:8443 {\n\trespond ok\n}\n")
 	}
 	sb.WriteString(":80 {\n\treverse_proxy 127.0.0.1:9 {\n")
 	for _, l := range rpTP {
@@ -180,13 +190,30 @@ func (p *prop) runCF(f []string) core.Outcome {
 			} `json:"http"`
 		} `json:"apps"`
 	}
-	if err := json.Unmarshal(body, &cfg); err != nil || len(cfg.Apps.HTTP.Servers) != 1 {
+	want := 1
+	if targeted {
+		want = 2
+	}
+	if err := json.Unmarshal(body, &cfg); err != nil || len(cfg.Apps.HTTP.Servers) != want {
 		out.Impl = "adapt-shape"
 		return out
 	}
-	var srv map[string]any
+	// srv: the server the options are written for; rpSrv: the server with the reverse_proxy site (:80)
+	var srv, rpSrv map[string]any
 	for _, s := range cfg.Apps.HTTP.Servers {
-		srv = s
+		l := strs(s["listen"])
+		if len(l) == 1 && l[0] == ":8443" {
+			srv = s
+		} else {
+			rpSrv = s
+		}
+	}
+	if !targeted {
+		srv = rpSrv
+	}
+	if srv == nil || rpSrv == nil {
+		out.Impl = "adapt-shape"
+		return out
 	}
 	srvR := "nil"
 	if tp, ok := srv["trusted_proxies"].(map[string]any); ok {
@@ -204,7 +231,7 @@ func (p *prop) runCF(f []string) core.Outcome {
 	if n, ok := srv["trusted_proxies_strict"].(float64); ok && n > 0 {
 		strict = "1"
 	}
-	rp := findRP(srv["routes"])
+	rp := findRP(rpSrv["routes"])
 	if rp == nil {
 		out.Impl = "adapt-shape"
 		return out
@@ -224,6 +251,18 @@ func (p *prop) runCF(f []string) core.Outcome {
 		}
 	}
 	out.Impl = fmt.Sprintf("srv=%s strict=%s cih=%s rp=%s up=%s", srvR, strict, hexList(strs(srv["client_ip_headers"]), "nil"), hexList(rpR, "nil"), core.Hex(up))
+	if targeted {
+		// the options were written for :8443 only: the :80 server must not have received any of them
+		_, hasTP := rpSrv["trusted_proxies"]
+		_, hasStrict := rpSrv["trusted_proxies_strict"]
+		_, hasCIH := rpSrv["client_ip_headers"]
+		out.Impl += " other=" + b01(hasTP) + b01(hasStrict) + b01(hasCIH)
+		out.Tags = append(out.Tags, "cf:targeted")
+		if hasTP || hasStrict || hasCIH {
+			out.Failures = append(out.Failures, core.Failure{Class: "caddyfile-server-options-on-wrong-listener",
+				What: "options written for `servers :8443` reached the :80 server"})
+		}
+	}
 
 	// ---- oracle (implementation only): no range reaches the configuration that the operator did not
 	// write (or that `private_ranges` stands for), header order is the written order, strict iff written
@@ -288,6 +327,6 @@ func genCF(r *core.Rand) string {
 	if r.Chance(9, 10) && strict == "x" {
 		strict = "1"
 	}
-	return fmt.Sprintf("cf %s %s %s %s", linesField(lines(cfRangeTokens, 2, 3)), strict,
-		linesField(lines(cfHeaderTokens, 2, 3)), linesField(lines(cfRangeTokens, 2, 3)))
+	return fmt.Sprintf("cf %s %s %s %s %s", linesField(lines(cfRangeTokens, 2, 3)), strict,
+		linesField(lines(cfHeaderTokens, 2, 3)), linesField(lines(cfRangeTokens, 2, 3)), r.Pick([]string{"g", "g", "t"}))
 }
